@@ -1238,6 +1238,24 @@ func (f *Frame) store(x *ssa.Store) {
 		p.obj.stores = map[string][]storeRec{}
 	}
 	p.obj.stores[p.path] = append(p.obj.stores[p.path], storeRec{val: v, instr: x, state: f.cur})
+	if p.obj.symbolic {
+		// ghost fact "this path passed a store of a non-nil value to the field" (used by the
+		// optional-callback rule); any other store to the field forgets it
+		g := f.an.u.boolSym("stored(" + p.obj.key + f.pathNames(p.obj, p.path) + ")")
+		nf := f.nilness(v)
+		for i, c := range f.cur {
+			var nc Conj
+			for _, a := range c {
+				if a.a.coef(g) == 0 {
+					nc = append(nc, a)
+				}
+			}
+			f.cur[i] = nc
+		}
+		if nf.kind == fConst && !nf.b {
+			f.assume(atomEQ(affSym(g), affConst(1)))
+		}
+	}
 }
 
 func (f *Frame) load(x *ssa.UnOp) AV {
